@@ -265,6 +265,40 @@ def gen_case(rng: Rng, max_routers: int = 3) -> dict:
     return add_inject(_gen_case(rng, max_routers))
 
 
+def gen_air_many(rng: Rng, k: int) -> dict:
+    """family `air_many` — IMPLEMENTATION ONLY (the Lean model has one peer per interface: an air space frequency shared by more than
+    two access points is outside it, see the design note): `k` >= 3 wireless routers on ONE frequency (`AirSpace.transmit` hands the
+    ONE frame object to every other enabled access point in registration order, depth-first), a wired LAN with a host behind each,
+    static routes or a default route to a hub; every ordered host pair is pinged cold and warm, one bystander access point is switched
+    off and on in between.  Judged by the property's oracle (a)-(d) on the real objects only: search, not proof."""
+    nodes, links = [], []
+    R = list(range(k))
+    hub = rng.choice(R)
+    use_default = rng.chance(1, 2)
+    for r in R:
+        if use_default and r != hub:
+            routes, default = [], f"10.0.0.{hub + 1}"
+        else:
+            routes = [{"addr": f"192.168.{10 + q}.0", "mask": "255.255.255.0", "nh": f"10.0.0.{q + 1}", "metric": 0} for q in R if q != r]
+            default = None
+        nodes.append({"kind": "wrouter", "ports": [{"ip": f"10.0.0.{r + 1}", "mask": "255.255.255.240"},
+                                                   {"ip": f"192.168.{10 + r}.1", "mask": "255.255.255.0"}],
+                      "routes": routes, "default": default, "flag": True})
+    for r in R:
+        nodes.append({"kind": "host", "ip": f"192.168.{10 + r}.2", "mask": "255.255.255.0", "gw": f"192.168.{10 + r}.1"})
+        links.append([k + r, 0, r, 1])
+    pings = [{"op": "ping", "src": k + a, "dst": f"192.168.{10 + b}.2", "count": rng.choice([1, 1, 2])} for a in R for b in R if a != b]
+    pings = rng.shuffle(pings)
+    by = rng.choice(R)
+    others = [p for p in pings if by not in (p["src"] - k, int(p["dst"].split(".")[2]) - 10)
+              and not (use_default and by == hub)]
+    ops = pings + [dict(p) for p in pings[:4]] + [{"op": "disable", "node": by, "ifc": 0}] + [dict(p) for p in others[:4]] \
+        + [{"op": "enable", "node": by, "ifc": 0}] + [dict(p) for p in pings[:3]]
+    return {"nodes": nodes, "links": links, "air": [[r, 0, r + 1, 0] for r in range(k - 1)], "ops": ops, "ping_permit": True,
+            "all_permit": True, "consistent": True, "icmp_ident_zero": False,
+            "notes": {"routers": k, "kinds": "+".join(["wrouter"] * k), "air_many": k, "routing": "default" if use_default else "static"}}
+
+
 def _gen_case(rng: Rng, max_routers: int = 3) -> dict:
     if rng.chance(1, 14):
         return gen_dmz_cross(rng)
